@@ -10,15 +10,19 @@
    that `expr_size--` below zero wraps exactly as in C. The signed 64-bit i and j are [Z] (their
    absolute value is bounded by the string length + 3).
 
-   The model is what the code DOES. Known defects that are reproduced (see IfFeatureP.v,
-   Properties_C05_iff.v): the pre-pass cancels `not ... not` across parentheses while the main pass
-   only cancels directly adjacent ones; the parenthesis balance is only checked at the end; the two
-   passes cut words differently when a `)` is directly followed by a word character. All three end in
-   [IOob].
+   The model is what the code DOES, as of /repo commits 299b7de, 6f66310, 685c1af. These three commits
+   fixed the three memory-safety defects that an earlier version of this model reproduced (all ended in
+   [IOob], SIGSEGV in the real code):
+     299b7de  the pre-pass resets last_not at `(` and `)`: a `not` is cancelled only against a directly
+              adjacent `not`, exactly as the main pass does (was: `not (not a)` undersized the arrays);
+     6f66310  the pre-pass answers LY_EVALID as soon as the parenthesis depth becomes negative (was: only
+              the final balance was checked and `)a(` popped from an empty operator stack);
+     685c1af  the backward word scan of the main pass stops at `)` too, so both passes cut the string into
+              the same words (was: `()not not b` wrote more records than allocated).
+   IfFeatureP.v proves that the model now never answers [IOob] on any string (Properties_C05_iff.v).
 
    Second half of the file: the specification side (AST, denotation, prefix code, RFC 7950 section
-   7.20.2 grammar as a rendering relation, renderers, and the executable side conditions used by the
-   partial theorems). *)
+   7.20.2 grammar as a rendering relation, renderers). *)
 From LY Require Import Base.
 From LY.Gen Require Consts.
 Local Open Scope N_scope.
@@ -201,10 +205,13 @@ Fixpoint pre_loop (fuel fu : nat) (s : bytes) (st : pre_st) : ires pre_st :=
       let* c := rdc s i in
       if c =? 0 then IOk st
       else if c =? 40 then
-        pre_loop f fu s {| p_i := i + 1; p_j := p_j st + 1; p_last_not := p_last_not st; p_cv := true;
+        (* j++; checkversion = 1; last_not = 0; *)
+        pre_loop f fu s {| p_i := i + 1; p_j := p_j st + 1; p_last_not := false; p_cv := true;
                            p_fsize := p_fsize st; p_esize := p_esize st; p_fexp := p_fexp st |}
       else if c =? 41 then
-        pre_loop f fu s {| p_i := i + 1; p_j := p_j st - 1; p_last_not := p_last_not st; p_cv := p_cv st;
+        (* j--; last_not = 0; if (j < 0) return LY_EVALID; *)
+        if (p_j st - 1 <? 0)%Z then IErr E_PAREN else
+        pre_loop f fu s {| p_i := i + 1; p_j := p_j st - 1; p_last_not := false; p_cv := p_cv st;
                            p_fsize := p_fsize st; p_esize := p_esize st; p_fexp := p_fexp st |}
       else if is_cspace c then
         pre_loop f fu s {| p_i := i + 1; p_j := p_j st; p_last_not := p_last_not st; p_cv := true;
@@ -260,14 +267,14 @@ Fixpoint pop_while_le (fuel : nat) (p : N) (st : mst) : ires mst :=
       else IOk st
   end.
 
-(* while (i >= 0 && !isspace(c[i]) && c[i] != '(') i--;   (returns i before the i++) *)
+(* while (i >= 0 && !isspace(c[i]) && c[i] != '(' && c[i] != ')') i--;   (returns i before the i++) *)
 Fixpoint scan_back (fuel : nat) (s : bytes) (i : Z) : ires Z :=
   match fuel with
   | O => IErr E_FUEL
   | S f =>
       if (i <? 0)%Z then IOk i else
       let* c := rdc s i in
-      if is_cspace c then IOk i else if c =? 40 then IOk i else scan_back f s (i - 1)
+      if is_cspace c then IOk i else if c =? 40 then IOk i else if c =? 41 then IOk i else scan_back f s (i - 1)
   end.
 
 (* !strncmp(&c[i], kw, n) && isspace(c[i + n]) *)
@@ -508,38 +515,9 @@ Fixpoint toks (its : list item) : list tok :=
   | IW w :: r => classify w (next_is_sp r) :: toks r
   end.
 
-(* ---------- side conditions of the partial theorems (each excludes one defect) ---------- *)
-(* (1) reading left to right the parenthesis depth never drops below zero *)
-Fixpoint depth_nonneg (s : bytes) (d : N) : bool :=
-  match s with
-  | [] => true
-  | c :: r =>
-      if c =? 40 then depth_nonneg r (d + 1)
-      else if c =? 41 then (if d =? 0 then false else depth_nonneg r (d - 1))
-      else depth_nonneg r d
-  end.
-
-(* (2) whenever the pre-pass cancels a `not` against the previous one, the two are directly adjacent
-   (only white-space between them): a `not` that directly follows a parenthesis is never met with the
-   pre-pass's last_not flag set; ln = that flag *)
-Fixpoint not_adj (ts : list tok) (ln : bool) : bool :=
-  match ts with
-  | [] => true
-  | TNOT :: r => not_adj r (negb ln)
-  | TLP :: r | TRP :: r => (match r with TNOT :: _ => negb ln | _ => true end) && not_adj r ln
-  | _ :: r => not_adj r false
-  end.
-Definition not_cancel_adjacent (s : bytes) : bool := not_adj (toks (items s)) false.
-
-(* (3) a closing parenthesis is never directly followed by a word character *)
 Definition is_wordch (c : N) : bool := negb (c =? 40) && negb (c =? 41) && negb (is_cspace c).
-Fixpoint rp_sep (s : bytes) : bool :=
-  match s with
-  | [] => true
-  | c :: r => (if c =? 41 then match r with d :: _ => negb (is_wordch d) | [] => true end else true) && rp_sep r
-  end.
 
-(* (0) size assumption of every theorem about the compiler: the string fits a C object (|s| < 2^62), so
+(* size assumption of every theorem about the compiler: the string fits a C object (|s| < 2^62), so
    that the 64-bit counters and the signed index cannot wrap on their own *)
 Definition len_ok (s : bytes) : Prop := (Z.of_nat (length s) < 4611686018427387904)%Z.
 
